@@ -153,7 +153,7 @@ def gen_loader(rng, strict):
 
 
 def gen_cases(rng, tier):
-    n = {"quick": 1800, "thorough": 36000, "search": 2500}[tier]
+    n = {"quick": 1300, "thorough": 30000, "search": 2000}[tier]
     for _ in range(n):
         k = rng.random()
         if k < 0.12:
@@ -163,6 +163,14 @@ def gen_cases(rng, tier):
         strict = k < 0.5
         files, entry, loader_ae, settings, g = gen_loader(rng, strict)
         env = make_env(rng)
+        if strict and rng.random() < 0.04:
+            # a directive without function name: must be rejected (or, at least, must not switch escaping off)
+            fi = rng.randrange(len(files))
+            files[fi][1] = rng.choice(["{% autoescape %}", "{%autoescape  %}"]) + files[fi][1] + "{{ adv }}"
+            yield {"kind": "tpl", "files": files, "entry": entry, "ws": None, "ae": loader_ae, "exec": True, "valid": True,
+                   "strict": True, "env": env, "settings": settings, "uses_adv": True, "may_reject": "empty-autoescape",
+                   "feat": sorted(g.feat)}
+            continue
         yield {"kind": "tpl", "files": files, "entry": entry, "ws": rng.choice([None, "all", "single", "oneline"]), "ae": loader_ae,
                "exec": True, "valid": True, "strict": strict, "env": env, "settings": settings, "uses_adv": g.uses_adv,
                "feat": sorted(g.feat)}
@@ -212,6 +220,8 @@ def spec_requests(case, impl):
         return [line(ID, "safe", bytes.fromhex(out[1]))] if out[0] == "out" else []
     if "render" not in impl:
         return []
+    if case.get("may_reject") and impl["compile"][0] == "ParseError":
+        return []
     reqs = [line(ID, "render", case["ws"], case["ae"], case["entry"], case["files"], c19.env_wire(case["env"]))]
     if impl["render"][0] == "out":
         reqs.append(line(ID, "safe", bytes.fromhex(impl["render"][1])))
@@ -234,6 +244,8 @@ def spec_violation(case, impl, replies):
             return "escaped expression output is not safe: %r" % bytes.fromhex(out[1])[:200]
         return None
     c = impl["compile"]
+    if case.get("may_reject") and c[0] == "ParseError":
+        return None
     if c[0] != "code" or "syntax_error" in impl:
         return "well-formed template failed to compile: %s" % (c[1] if c[0] != "code" else impl["syntax_error"])
     got = impl["render"]
@@ -281,6 +293,8 @@ def stats(case, impl):
 def signature(case, impl, why):
     if case["kind"] == "expr":
         return "expr/%s/%s" % (case["ae"], "unsafe" if "not safe" in why else "raised")
+    if case.get("may_reject") and ("strict loader" in why or "raw value" in why):
+        return "strict/" + case["may_reject"]
     if "strict loader" in why:
         return "strict/unescaped-markup"
     if "raw value of `adv`" in why:
